@@ -443,6 +443,15 @@ def gen(rng, kind, tier):
             sd = geom.distance(a[:-1], b[:-1], per) - a[-1] - b[-1]
             if abs(sd - d_min) <= 1e-9:
                 return None
+        if rng.random() < 0.25:
+            # round 7 (C10_19, C02_20): the same configuration in another unit of length (nanometres in metres, ...);
+            # which droplets are too close and which of two is the smaller one does not depend on the unit
+            u = float(10.0 ** int(rng.choice([-9, -8, -6, -3, 3, 6])))
+            case["droplets"] = [[float(x * u) for x in d] for d in case["droplets"]]
+            case["d_min"] = float(d_min * u)
+            case["unit"] = u
+            if g is not None:
+                g["bounds"] = [[float(b0 * u), float(b1 * u)] for b0, b1 in g["bounds"]]
         return case
     if kind == "from_random":
         dim = int(rng.choice([1, 2, 3]))
